@@ -744,7 +744,7 @@ func (g *gen) msgidPlaceholder() {
 // gotransCovers: does gotrans translate this function (or fragment) of today's source?  A throw-away translation: what
 // is emitted comes from the gotrans families themselves.
 func (g *gen) gotransCovers(dir, key string, cfg *gtCfg) (ok bool) {
-	st := &gtState{fns: map[string]*gtFn{}, cfgs: map[string]*gtCfg{}, tables: map[string]*gtype{}, placeholders: map[string]bool{}, loopTexts: map[string]string{}}
+	st := &gtState{fns: map[string]*gtFn{}, cfgs: map[string]*gtCfg{}, tables: map[string]*gtype{}, placeholders: map[string]bool{}, loopTexts: map[string]string{}, joins: g.gtState().joins}
 	for k, v := range g.gtState().cfgs {
 		st.cfgs[k] = v
 	}
